@@ -51,6 +51,11 @@ func VerifC04AggregatedValues() {
 	}
 	verifTempTable(scope, "t", []string{"id", "g", "v"}, rows)
 	qi := verifChoice("query", len(verifC04ValSrc))
+	if qi == 0 || qi == 2 || qi == 3 {
+		// one worker per record: a bucket's rows may be seen by the first and the last worker only
+		tx.Flags.CPU = 3
+		GetGoroutineManager().MinimumRequiredPerCore = 1
+	}
 	view, err := Select(verifCtx(), scope, verifC04ValQueries[qi])
 	verifAssert("select succeeds", err == nil)
 	if err != nil {
